@@ -120,9 +120,25 @@ func (e *Encoder) writeValue(val reflect.Value, tagType byte) error {
 					}
 				}
 			case reflect.Uint8:
-				data = val.Bytes()
+				if val.Kind() == reflect.Array && !val.CanAddr() {
+					// Bytes needs an addressable array
+					data = make([]byte, n)
+					for i := range data {
+						data[i] = byte(val.Index(i).Uint())
+					}
+				} else {
+					data = val.Bytes()
+				}
 			case reflect.Int8:
-				data = unsafe.Slice((*byte)(val.UnsafePointer()), val.Len())
+				if val.Kind() == reflect.Array {
+					// UnsafePointer is not defined for arrays
+					data = make([]byte, n)
+					for i := range data {
+						data[i] = byte(val.Index(i).Int())
+					}
+				} else {
+					data = unsafe.Slice((*byte)(val.UnsafePointer()), val.Len())
+				}
 			default:
 				// elements behind interfaces, e.g. []any{int8(1), int8(2)}
 				data = make([]byte, n)
